@@ -28,10 +28,20 @@ TRUSTED = [
     "libm sqrt enters as a monotone function parameter; theorems over exact ordered fields",
     "the ROBDD store half of the property is proved in FV/Props/C07.lean (append-only, semantics-preserving store)",
     "fork() gives the fresh interpreter: the parent imports the library but never executes an operation",
-    "operation kinds probed = the ones the property lists (netlist load, die decomposition, allocation load with and without "
-    "a netlist before it, refinement, orthogon recognition, SAT encoding, strop, legaliser model construction); netgen, "
-    "spectral, force, glbfloor, draw, the FloorSet manager and the legaliser's solve loop are NOT executed as history or probe: "
-    "state they might keep is outside what this check sees",
+    "operation kinds executed as history AND probe: netlist load, die decomposition, allocation load with and without a netlist "
+    "before it, refinement, orthogon recognition, SAT encoding (one manager; several managers interleaved), strop, legaliser model "
+    "construction and `ModelWrapper.build_model`, netgen (all topologies, --add-centers), spectral layout and the force-directed "
+    "layout (the interpreter's `random` generator is seeded as part of the probe), a one-pass glbfloor on a 2x2/2x3 grid, the FloorSet "
+    "manager, `rect.solve` on a tiny grid.  NOT executed: draw, the verifier, the legaliser's solve loop, kamada_kawai (GEKKO solve), "
+    "the USCS parsers: state they might keep is seen only by the static inventory",
+    "static inventory (harness/c20_inventory.py): an `ast` scan of the anchored files, the entry modules of every executed operation "
+    "and everything they import from the repository, for module-level mutable objects, `global` rebinding, class-level mutable "
+    "attributes, attribute writes on class / module objects, mutable default arguments, memoising decorators and interpreter-wide "
+    "settings, compared with the committed list harness/c20_state_expected.json (each entry says which part of the model or footprint "
+    "accounts for it).  It sees only what these syntactic categories cover: state hidden behind aliasing (`c = _table; c[k] = v` on a "
+    "never-directly-mutated non-empty table), C extensions or third-party libraries is not seen",
+    "FV/Model/SatProc.lean models the interpreter-wide ROBDD store under any number of managers (a failed operation changes nothing; "
+    "creating a manager touches no global); tied by the satproc stream (clause lists, variable tables, store, verdicts, bit-exact)",
     "a history-dependent probe is attributed to the open finding only if (a) the tolerance in force is a legitimate proposal of "
     "an earlier design, (b) a control run in a third fresh interpreter with ONLY that tolerance preset reproduces the "
     "after-history digest, and (c) the probe is not Robust for the interval of proposals; anything else is a VIOLATION",
@@ -40,6 +50,30 @@ TRUSTED = [
 K_DIE, K_NET = 10e-12, 1e-12
 
 KINDS = ["netlist", "die", "alloc", "alloctext", "allocfirst", "sat", "strop", "legal"]
+# operation kinds of the tools built on the library (audit 3, C20 item 5); weights keep the GEKKO-based ones rare
+NEW_KINDS = {"netgen": 2, "spectral": 2, "floorset": 2, "rectsolve": 2, "satmulti": 2, "force": 1, "legalbuild": 1, "glbfloor": 1}
+KIND_WEIGHTS = {**{k: 3 for k in KINDS}, **NEW_KINDS}
+ALL_KINDS = list(KIND_WEIGHTS)
+# kinds whose result depends on the Rectangle tolerances (a history-dependent result may be the open finding)
+GEOMETRIC = ("netlist", "die", "alloc", "alloctext", "allocfirst", "legal", "legalbuild", "netgen", "spectral", "force", "glbfloor")
+# entry modules of every kind (for the state-inventory bias of the extended search)
+KIND_MODULES = {
+    "netlist": ["frame/netlist/netlist.py"], "die": ["frame/die/die.py"], "alloc": ["frame/allocation/allocation.py", "frame/die/die.py"],
+    "alloctext": ["frame/allocation/allocation.py"], "allocfirst": ["frame/allocation/allocation.py"],
+    "sat": ["tools/rect/satmanager.py"], "satmulti": ["tools/rect/satmanager.py"], "strop": ["tools/floorset_parser/floor_set_manager/strop.py"],
+    "legal": ["tools/legalfloor/legalfloor.py"], "legalbuild": ["tools/legalfloor/legalfloor.py", "tools/legalfloor/model.py"],
+    "netgen": ["tools/netgen/netgen.py"], "spectral": ["tools/spectral/spectral.py"], "force": ["tools/force/force.py"],
+    "glbfloor": ["tools/glbfloor/glbfloor.py"], "floorset": ["tools/floorset_parser/floor_set_manager/manager.py"],
+    "rectsolve": ["tools/rect/rect.py"],
+}
+
+
+NON_GEOMETRIC = ("sat", "satmulti", "strop", "floorset", "rectsolve")     # never touch a Rectangle: must leave the tolerances alone
+
+
+def pick_kind(rng: random.Random, weights: dict | None = None) -> str:
+    w = weights or KIND_WEIGHTS
+    return rng.choices(list(w), weights=[w[k] for k in w])[0]
 
 
 # ------------------------------------------------------------------ design generators (pure data)
@@ -230,7 +264,161 @@ def gen_legal(rng: random.Random, s: float, defect: bool, L: int = 10) -> dict:
             "proposal": n["proposal"]}
 
 
-GEN = {"alloctext": gen_alloctext, "allocfirst": gen_allocfirst, "netlist": gen_netlist, "die": gen_die, "alloc": gen_alloc, "sat": gen_sat, "strop": gen_strop, "legal": gen_legal}
+
+# ------------------------------------------------------------------ tools built on the library (audit 3 item 5)
+def _soft_netlist(rng: random.Random, s: float, L: int, nmin: int = 3, nmax: int = 5, centers: bool = True, W: float = 6.0, H: float = 5.0,
+                  fixed: bool = False):
+    """soft modules (area, optional centre) + optionally one fixed block; nets of 2-3 pins; returns (text, dims, rects)."""
+    n = rng.randint(nmin, nmax)
+    mods, dims, rects = [], [], []
+    for i in range(n):
+        a = rng.choice([1, 2, 0.5, 1.5]) * s * s
+        c = f", center: [{fmt(rng.randint(L, int(W - 1) * L) / L * s)}, {fmt(rng.randint(L, int(H - 1) * L) / L * s)}]" if centers else ""
+        mods.append(f"  A{i}: {{area: {fmt(a)}{c}}}")
+        dims.append(math.sqrt(a))
+    if fixed:
+        x, y, w, h = rng.randint(1, 2), rng.randint(1, 2), 1, rng.choice([1, 0.5])
+        mods.append(f"  F0: {{fixed: true, rectangles: [[{fmt(x * s)}, {fmt(y * s)}, {fmt(w * s)}, {fmt(h * s)}]]}}")
+        dims = [w * s, h * s] + dims + [math.sqrt(w * s * h * s)]
+        rects.append((x * s, y * s, w * s, h * s))
+    names = [m.split(":")[0].strip() for m in mods]
+    nets = []
+    for i in range(len(names) - 1):      # a connected chain, plus a few extra nets
+        nets.append(f"[{names[i]}, {names[i + 1]}]")
+    for _ in range(rng.randint(0, 2)):
+        mem = rng.sample(names, rng.randint(2, min(3, len(names))))
+        nets.append("[" + ", ".join(mem + [fmt(rng.choice([2, 0.5]))]) + "]")
+    text = "Modules: {\n" + ",\n".join(mods) + "\n}\nNets: [" + ", ".join(nets) + "]\n"
+    return text, dims, rects
+
+
+def gen_netgen(rng: random.Random, s: float, defect: bool, L: int = 10) -> dict:
+    t = rng.choice(["grid", "grid", "grid", "chain", "ring", "star", "ring-star", "one-net", "htree"])
+    d = {"kind": "netgen", "scale": s, "rects": []}
+    if t == "grid":
+        size = [rng.randint(1, 3), rng.randint(1, 3)]
+        args = ["--type", "grid", "--size", str(size[0]), str(size[1])]
+        if rng.random() < 0.7:
+            W, H = rng.randint(3, 8) * s, rng.randint(3, 8) * s
+            args += ["--add-centers", "--die", f"{fmt(W)}x{fmt(H)}", "--add-noise", fmt(rng.choice([0, 0, 0.125 * s])),
+                     "--seed", str(rng.randint(0, 99))]
+            d.update({"W": W, "H": H, "proposal": min(W, H) * K_DIE, "rects": [[(W / 2, H / 2, W, H)]]})
+    else:
+        n = rng.randint(1, 3) if t == "htree" else rng.randint(4, 6)      # htree: number of LEVELS
+        args = ["--type", t, "--size", str(n)]
+    if defect:
+        args += ["--size", "2", "2", "2"]            # one size too many: rejected by an assertion before anything is built
+        d["defect"] = True
+    d["args"] = args
+    return d
+
+
+def gen_spectral(rng: random.Random, s: float, defect: bool, L: int = 10) -> dict:
+    W, H = rng.randint(6, 9), rng.randint(5, 8)
+    centers = rng.random() < 0.5
+    text, dims, rects = _soft_netlist(rng, s, L, 3, 5, centers=centers, W=W, H=H, fixed=rng.random() < 0.3)
+    return {"kind": "spectral", "scale": s, "netlist": text, "W": W * s, "H": H * s, "bestof": rng.choice([0, 1, 2] if centers else [1, 2]),
+            "seed": rng.randint(0, 999), "rects": [rects + [(W * s / 2, H * s / 2, W * s, H * s)]], "proposal": min(dims) * K_NET}
+
+
+def gen_force(rng: random.Random, s: float, defect: bool, L: int = 10) -> dict:
+    W, H = rng.randint(6, 9), rng.randint(5, 8)
+    text, dims, rects = _soft_netlist(rng, s, L, 3, 4, centers=True, W=W, H=H)
+    return {"kind": "force", "scale": s, "netlist": text, "W": W * s, "H": H * s, "seed": rng.randint(0, 999), "max_iter": rng.choice([3, 6]),
+            "rects": [[(W * s / 2, H * s / 2, W * s, H * s)]], "proposal": min(dims) * K_NET}
+
+
+def gen_glbfloor(rng: random.Random, s: float, defect: bool, L: int = 10) -> dict:
+    W, H = rng.choice([4, 6]), rng.choice([4, 6])
+    n = rng.randint(2, 3)
+    mods, dims = [], []
+    for i in range(n):
+        a = rng.choice([0.5, 0.625, 0.75]) * W * H / n * s * s      # the modules fill 50-75 % of the die
+        mods.append(f"  A{i}: {{area: {fmt(a)}, center: [{fmt(rng.randint(1, W - 1) * s)}, {fmt(rng.randint(1, H - 1) * s)}]}}")
+        dims.append(math.sqrt(a))
+    nets = ", ".join(f"[A{i}, A{i + 1}]" for i in range(n - 1))
+    text = "Modules: {\n" + ",\n".join(mods) + "\n}\nNets: [" + nets + "]\n"
+    return {"kind": "glbfloor", "scale": s, "netlist": text, "W": W * s, "H": H * s, "grid": [2, rng.randint(2, 3)], "thr": rng.choice([0.7, 0.9]),
+            "alpha": rng.choice([0.3, 0.5]), "rects": [[(W * s / 2, H * s / 2, W * s, H * s)]], "proposal": min(dims) * K_NET}
+
+
+def gen_floorset(rng: random.Random, s: float, defect: bool, L: int = 10) -> dict:
+    """a FloorSet instance: rectilinear single-trunk polygons (integer vertices), pins, block-block and pin-block nets."""
+    slot = 8
+    ncol, nrow = rng.randint(1, 2), rng.randint(1, 2)
+    polys, areas, cons = [], [], []
+    for i in range(ncol):
+        for j in range(nrow):
+            if polys and rng.random() < 0.3:
+                continue
+            ox, oy = 1 + i * slot, 1 + j * slot
+            a, b = rng.randint(3, 6), rng.randint(3, 6)
+            c, d = rng.randint(1, b - 1), rng.randint(1, a - 1)
+            shape = rng.choice(["rect", "L", "T"])
+            if shape == "rect":
+                p = [(0, 0), (a, 0), (a, b), (0, b)]
+            elif shape == "L":
+                p = [(0, 0), (a, 0), (a, c), (d, c), (d, b), (0, b)]
+            else:
+                d1, d2 = sorted([rng.randint(1, a - 1), rng.randint(1, a - 1)])
+                p = [(0, 0), (a, 0), (a, c), (d2, c), (d2, b), (d1, b), (d1, c), (0, c)] if d1 < d2 else [(0, 0), (a, 0), (a, b), (0, b)]
+            if rng.random() < 0.5:
+                p = p[::-1]
+            polys.append([[float(ox + x), float(oy + y)] for x, y in p])
+            areas.append(float(rng.randint(1, 40)))
+            k = rng.random()
+            cons.append([int(k < 0.3), int(0.3 <= k < 0.5), 0, 0, 0])
+    W, H = float(ncol * slot + 2), float(nrow * slot + 2)
+    pins = [[0.0, 0.0], [W, H]] + [[float(rng.randint(0, int(W))), rng.choice([0.0, H])] for _ in range(rng.randint(0, 3))]
+    nb = len(polys)
+    b2b = [[float(a), float(b), rng.choice([1.0, 2.0, 0.5])] for a in range(nb) for b in range(a + 1, nb) if rng.random() < 0.7]
+    p2b = [[float(rng.randrange(len(pins))), float(rng.randrange(nb)), rng.choice([1.0, 3.0])] for _ in range(rng.randint(0, 3))]
+    if defect:
+        areas[0] = -1.0        # rejected by the constructor's assertion
+    return {"kind": "floorset", "scale": s, "polys": polys, "areas": areas, "cons": cons, "pins": pins, "b2b": b2b, "p2b": p2b,
+            "density": rng.choice([None, None, 0.5]), "terminals": rng.random() < 0.5}
+
+
+def gen_rectsolve(rng: random.Random, s: float, defect: bool, L: int = 10) -> dict:
+    """`rect.solve` on a tiny product grid (the main flow of tools/rect for one module)."""
+    nx, ny = rng.randint(1, 3), rng.randint(1, 2)
+    xs = [0.0]
+    for _ in range(nx):
+        xs.append(xs[-1] + rng.choice([1, 2, 0.5]))
+    ys = [0.0]
+    for _ in range(ny):
+        ys.append(ys[-1] + rng.choice([1, 2]))
+    occ = [rng.choice([1.0, 1.0, 0.5, 0.25, 0.0]) for _ in range(nx * ny)]
+    if not any(occ):
+        occ[0] = 1.0
+    return {"kind": "rectsolve", "scale": s, "xs": xs, "ys": ys, "occ": occ, "ratio": rng.choice([1.0, 2.0, 3.0]), "k": rng.randint(1, 2),
+            "dif0": rng.choice([0, 0, 1])}
+
+
+def gen_legalbuild(rng: random.Random, s: float, defect: bool, L: int = 10) -> dict:
+    d = gen_legal(rng, s, defect, L)
+    d["kind"] = "legalbuild"
+    return d
+
+
+def gen_satmulti(rng: random.Random, s: float, defect: bool, L: int = 10) -> dict:
+    """2-3 SAT managers alive at the same time, posting interleaved (they share the process-wide ROBDD store)."""
+    nm = rng.randint(2, 3)
+    subs = [gen_sat(rng, s, False, L) for _ in range(nm)]
+    if rng.random() < 0.5:       # same variable names in every manager: the diagrams share decision variables
+        for d in subs[1:]:
+            ren = dict(zip(d["vars"], subs[0]["vars"] + d["vars"]))
+            if len(set(ren.values())) == len(ren):
+                d["cons"] = [dict(c, terms=[(co, ren[v], ng) for (co, v, ng) in c["terms"]]) for c in d["cons"]]
+                d["amo"] = [ren[v] for v in d["amo"]]
+                d["vars"] = [ren[v] for v in d["vars"]]
+    order = [i for i, d in enumerate(subs) for _ in range(len(d["cons"]) + 1)]
+    rng.shuffle(order)
+    return {"kind": "satmulti", "scale": s, "subs": subs, "order": order}
+
+
+GEN = {"netgen": gen_netgen, "spectral": gen_spectral, "force": gen_force, "glbfloor": gen_glbfloor, "floorset": gen_floorset,
+       "rectsolve": gen_rectsolve, "legalbuild": gen_legalbuild, "satmulti": gen_satmulti, "alloctext": gen_alloctext, "allocfirst": gen_allocfirst, "netlist": gen_netlist, "die": gen_die, "alloc": gen_alloc, "sat": gen_sat, "strop": gen_strop, "legal": gen_legal}
 
 
 # ------------------------------------------------------------------ running an operation (child processes only)
@@ -240,6 +428,78 @@ def _num(x):
 
 def _rect_digest(r):
     return [_num(r.center.x), _num(r.center.y), _num(r.shape.w), _num(r.shape.h), r.region, r.fixed, r.hard, r.location.name]
+
+
+def _plain(x):
+    """JSON-able copy of nested containers / numpy values (floats stay floats, so digests compare numerically)"""
+    if isinstance(x, dict):
+        return [[str(k), _plain(v)] for k, v in x.items()]
+    if isinstance(x, (list, tuple)):
+        return [_plain(v) for v in x]
+    if isinstance(x, bool) or x is None or isinstance(x, (int, str)):
+        return x
+    if isinstance(x, float):
+        return x
+    try:
+        import numpy as np
+        if isinstance(x, np.ndarray):
+            return [_plain(v) for v in x.tolist()]
+        if isinstance(x, np.generic):
+            return _plain(x.item())
+    except Exception:
+        pass
+    return str(x)
+
+
+def _net_dims(n) -> list:
+    """the numbers `Netlist._create_rectangles` takes the minimum of when it proposes the tolerance"""
+    dims = []
+    for r in n.rectangles:
+        dims += [r.shape.w, r.shape.h]
+    for m in n.modules:
+        if m.area() > 0:
+            dims.append(math.sqrt(m.area()))
+    return dims
+
+
+def _sat_post(sm, lits, c, refused, i) -> None:
+    from tools.rect.pseudobool import Expr
+    e = Expr()
+    for (co, v, neg) in c["terms"]:
+        e = e + (-lits[v] if neg else lits[v]) * co
+    op, rhs = c["op"], c["rhs"]
+    ineq = {">=": e >= rhs, "<=": e <= rhs, ">": e > rhs, "<": e < rhs, "=": e == rhs}[op]
+    try:
+        sm.pseudoboolencoding(ineq, c["decomp"])
+    except Exception as ex:  # refusal is an observable result too
+        refused.append([i, type(ex).__name__])
+
+
+def _sat_digest(sm, uvars, refused) -> list:
+    """[solve() verdict, truth table of the clause set over the user variables, refusals, the clause set itself canonical
+    up to renaming of diagram-node / auxiliary variables by first occurrence]"""
+    from pysat.solvers import Solver
+    sat = sm.solve()
+    table = []
+    s = Solver()
+    for cl in sm.clauses:
+        s.add_clause([(sm.ttable[l.v] if l.s else -sm.ttable[l.v]) for l in cl])
+    nv = len(uvars)
+    for bits in range(2 ** nv):
+        ass = [(sm.ttable[v] if (bits >> i) & 1 else -sm.ttable[v]) for i, v in enumerate(uvars)]
+        table.append(bool(s.solve(assumptions=ass)))
+    s.delete()
+    ren: dict[str, str] = {}
+    cnf = []
+    for cl in sm.clauses:
+        row = []
+        for l in cl:
+            v = l.v
+            if v.startswith("robdd_") or v.startswith("aux_"):
+                v = ren.setdefault(v, f"{v.split('_')[0]}#{len(ren)}")
+            row.append(("" if l.s else "-") + v)
+        cnf.append(row)
+    return [sat, table, refused, cnf]
 
 
 def run_op(d: dict):
@@ -337,44 +597,127 @@ def run_op(d: dict):
         return ["ok", must, cells3(a), cells3(a2), cells3(a3)], aprop
     if kind == "sat":
         from tools.rect.satmanager import SATManager
-        from tools.rect.pseudobool import Expr
-        from pysat.solvers import Solver
         sm = SATManager()
         lits = {v: sm.newvar(v, "") for v in d["vars"]}
         refused = []
         for i, c in enumerate(d["cons"]):
-            e = Expr()
-            for (co, v, neg) in c["terms"]:
-                e = e + (-lits[v] if neg else lits[v]) * co
-            op, rhs = c["op"], c["rhs"]
-            ineq = {">=": e >= rhs, "<=": e <= rhs, ">": e > rhs, "<": e < rhs, "=": e == rhs}[op]
-            try:
-                sm.pseudoboolencoding(ineq, c["decomp"])
-            except Exception as ex:  # refusal is an observable result too
-                refused.append([i, type(ex).__name__])
+            _sat_post(sm, lits, c, refused, i)
         if len(d["amo"]) >= 2:
             sm.heuleencoding([lits[v] for v in d["amo"]], d["k"])
-        sat = sm.solve()
-        table = []
-        s = Solver()
-        for cl in sm.clauses:
-            s.add_clause([(sm.ttable[l.v] if l.s else -sm.ttable[l.v]) for l in cl])
-        nv = len(d["vars"])
-        for bits in range(2 ** nv):
-            ass = [(sm.ttable[v] if (bits >> i) & 1 else -sm.ttable[v]) for i, v in enumerate(d["vars"])]
-            table.append(bool(s.solve(assumptions=ass)))
-        # the clause set itself, canonical up to renaming of diagram-node / auxiliary variables by first occurrence
-        ren: dict[str, str] = {}
-        cnf = []
-        for cl in sm.clauses:
-            row = []
-            for l in cl:
-                v = l.v
-                if v.startswith("robdd_") or v.startswith("aux_"):
-                    v = ren.setdefault(v, f"{v.split('_')[0]}#{len(ren)}")
-                row.append(("" if l.s else "-") + v)
-            cnf.append(row)
-        return ["sat", sat, table, refused, cnf], None
+        return ["sat"] + _sat_digest(sm, d["vars"], refused), None
+    if kind == "satmulti":
+        from tools.rect.satmanager import SATManager
+        subs = d["subs"]
+        sms = [SATManager() for _ in subs]
+        lits = [{v: sm.newvar(v, "") for v in sub["vars"]} for sm, sub in zip(sms, subs)]
+        refused = [[] for _ in subs]
+        nxt = [0] * len(subs)
+        for i in d["order"]:            # interleaved postings: every manager sees the store the others have grown
+            sub = subs[i]
+            if nxt[i] < len(sub["cons"]):
+                _sat_post(sms[i], lits[i], sub["cons"][nxt[i]], refused[i], nxt[i])
+            elif nxt[i] == len(sub["cons"]) and len(sub["amo"]) >= 2:
+                sms[i].heuleencoding([lits[i][v] for v in sub["amo"]], sub["k"])
+            nxt[i] += 1
+        return ["satmulti"] + [_sat_digest(sm, sub["vars"], rf) for sm, sub, rf in zip(sms, subs, refused)], None
+    if kind == "netgen":
+        from tools.netgen import netgen
+        import tempfile
+        fd, fn = tempfile.mkstemp(suffix=".yaml", prefix="c20_netgen_")
+        os.close(fd)
+        prop = ("die", [d["W"], d["H"]]) if "W" in d and not d.get("defect") else None
+        try:
+            try:
+                netgen.main("netgen", ["-o", fn] + list(d["args"]))
+            except AssertionError:
+                return ["rejected", "Assert"], None
+            from frame.utils.utils import read_yaml
+            return ["netgen", _plain(read_yaml(fn))], prop
+        finally:
+            os.unlink(fn)
+    if kind == "spectral":
+        from tools.spectral.spectral import Spectral
+        from frame.geometry.geometry import Shape
+        try:
+            sp = Spectral(d["netlist"])
+        except AssertionError:
+            return ["rejected", "Assert"], None
+        nprop = ("net", _net_dims(sp))
+        random.seed(d["seed"])           # the operation probed is "seed the generator, then lay out"
+        try:
+            st = sp.spectral_layout(Shape(d["W"], d["H"]), d["bestof"], False)
+        except (AssertionError, ZeroDivisionError) as ex:      # open findings of C14 (orthogonality assert, near-filling disc)
+            return ["spectral-raised", type(ex).__name__], nprop
+        return ["spectral", st, [[m.name, None if m.center is None else [_num(m.center.x), _num(m.center.y)],
+                                  [_rect_digest(r) for r in m.rectangles]] for m in sp.modules]], nprop
+    if kind == "force":
+        from frame.netlist.netlist import Netlist
+        from frame.die.die import Die
+        from tools.force.force import add_noise
+        from tools.force.fruchterman_reingold import force_algorithm
+        try:
+            n = Netlist(d["netlist"])
+            nprop = ("net", _net_dims(n))
+            die = Die(f"{fmt(d['W'])}x{fmt(d['H'])}", n)
+        except AssertionError:
+            return ["rejected", "Assert"], None
+        random.seed(d["seed"])
+        die = add_noise(die, 0.01 * d["scale"])
+        die, _ = force_algorithm(die, max_iter=d["max_iter"])
+        return ["force", [[m.name, [_num(m.center.x), _num(m.center.y)]] for m in die.netlist.modules]], nprop
+    if kind == "glbfloor":
+        from frame.netlist.netlist import Netlist
+        from frame.die.die import Die
+        from tools.glbfloor.optimization import glbfloor
+        try:
+            n = Netlist(d["netlist"])
+            nprop = ("net", _net_dims(n))
+            die = Die(f"{fmt(d['W'])}x{fmt(d['H'])}", n)
+            die.initial_grid(d["grid"][0], d["grid"][1])
+        except AssertionError:
+            return ["rejected", "Assert"], None
+        die, a = glbfloor(die, d["thr"], d["alpha"], max_iter=1, verbose=False)
+        cells = sorted([[_num(v) for v in c.rect.vector_spec[:4]], c.depth, sorted([k, _num(v)] for k, v in c.alloc.items())]
+                       for c in a.allocations)
+        return ["glbfloor", cells, [[m.name, None if m.center is None else [_num(m.center.x), _num(m.center.y)]]
+                                    for m in die.netlist.modules]], nprop
+    if kind == "floorset":
+        import numpy as np
+        from tools.floorset_parser.floor_set_manager.manager import FloorSetInstance
+        kmax = max(len(p) for p in d["polys"]) + 2
+        vb = np.full((len(d["polys"]), kmax, 2), -1.0)
+        for i, p in enumerate(d["polys"]):
+            vb[i, :len(p), :] = np.array(p)
+        data = {"area_blocks": np.array(d["areas"], dtype=float), "b2b_connectivity": np.array(d["b2b"], dtype=float).reshape(-1, 3),
+                "p2b_connectivity": np.array(d["p2b"], dtype=float).reshape(-1, 3), "pins_pos": np.array(d["pins"], dtype=float).reshape(-1, 2),
+                "placement_constraints": np.array(d["cons"], dtype=float).reshape(-1, 5), "vertex_blocks": vb,
+                "metrics": np.array([len(d["polys"]), len(d["pins"]), 1, 1, 1, 1, 1, 1], dtype=float)}
+        try:
+            fp = FloorSetInstance(data, d["density"], d["terminals"])
+        except AssertionError:
+            return ["rejected", "Assert"], None
+        mods = getattr(fp, "modules", None)
+        nets = getattr(fp, "nets", None)
+        return ["floorset", _plain(mods), [[list(e.modules), _num(e.weight)] for e in (nets or [])],
+                _plain(list(getattr(fp, "shape", []) or []))], None
+    if kind == "rectsolve":
+        import types
+        import tools.rect.rect as rect
+        xs, ys, occ = d["xs"], d["ys"], d["occ"]
+        ny = len(ys) - 1
+        ip = [(xs[i], ys[j], xs[i + 1], ys[j + 1], occ[i * ny + j]) for i in range(len(xs) - 1) for j in range(ny)]
+        c = types.SimpleNamespace(input_problem=list(ip), factor=10000, theoreticalBestArea=0, selbox="M", inibox=(0, 0, 0, 0, 0))
+        rect.definecoords(c)
+        for b in c.blocks:
+            c.theoreticalBestArea += rect.area(c, b, True)
+        ret = rect.solve(c, {"Width": xs[-1] - xs[0], "Height": ys[-1] - ys[0]}, d["ratio"], (d["dif0"], 1), d["k"])
+        # the shape the solver picks among equally good ones is the solver's choice; what is compared: the reported cost,
+        # the number of boxes and the quality, plus every box being a union of grid cells
+        cost, boxes, quality = ret
+        return ["rectsolve", _plain(cost), len(boxes), _num(quality) if isinstance(quality, (int, float)) else str(quality),
+                sorted(_plain(b) for b in boxes)], None
+    if kind == "legalbuild":
+        return run_legal(d, build=True)
     if kind == "strop":
         from tools.floorset_parser.floor_set_manager.strop import Strop
         st = Strop(" ".join("".join("1" if c else "0" for c in row) for row in d["matrix"]))
@@ -388,8 +731,10 @@ def run_op(d: dict):
     raise ValueError(kind)
 
 
-def run_legal(d: dict):
-    """legaliser model construction (no solve): digest = multiset of equation strings."""
+def run_legal(d: dict, build: bool = False):
+    """legaliser model construction (no solve): digest = multiset of equation strings.  `build`: also run
+    `ModelWrapper.build_model()` (what `solve()` does right before calling GEKKO) — it reads the process-wide slack and
+    re-points it to a fresh GEKKO object — and add the equations / objective GEKKO was handed."""
     try:
         import legal_common  # provided by the C09 harness when present
     except Exception:
@@ -412,6 +757,15 @@ def run_legal(d: dict):
             w = b.model.gekko
             names = [v.data["name"] for v in getattr(w, "variable_list", [])]
             dig = dig + ["variable_list " + " ".join(sorted(names)), "n_constraint_groups %d" % len(getattr(w, "constraints", {}))]
+            # the slack tree this construction installed must belong to THIS model's GEKKO object (build_model re-points it);
+            # optional observation point: without the attribute both sides read "False"
+            dig.append("slack-tree-bound-to-this-model %s" % (getattr(getattr(b, "real_eps_tree", None), "gekko", None) is getattr(w, "gekko", 0)))
+            if build:
+                b.set_slack(None)        # the slack tree this model's constructor installed (Built parks a constant 0)
+                w.build_model()
+                gk = w.gekko
+                dig = dig + ["gekko-eq " + str(e) for e in getattr(gk, "_equations", [])] + \
+                            ["gekko-obj " + str(o) for o in getattr(gk, "_objectives", [])]
         finally:
             legal_common.cleanup()
     except AssertionError:
@@ -553,9 +907,51 @@ def child_regs(ops):
 
 
 
+def _track_tempdirs() -> list:
+    """GEKKO models create a scratch directory each (tempfile.mkdtemp): remember them so that the child removes its own."""
+    import tempfile
+    made: list = []
+    orig = tempfile.mkdtemp
+
+    def mk(*a, **k):
+        pth = orig(*a, **k)
+        made.append(pth)
+        return pth
+    tempfile.mkdtemp = mk
+    return made
+
+
+def _remove_tempdirs(made: list) -> None:
+    import shutil
+    for pth in made:
+        shutil.rmtree(pth, ignore_errors=True)
+    lc = sys.modules.get("legal_common")      # only if this child used it (importing it costs seconds)
+    if lc is not None:
+        try:
+            lc.cleanup()
+        except Exception:
+            pass
+
+
+def _guard() -> None:
+    """a runaway operation must end as an exception digest of that child, not take the machine down"""
+    import resource
+    import signal
+    try:
+        resource.setrlimit(resource.RLIMIT_AS, (8 << 30, 8 << 30))
+    except (ValueError, OSError):
+        pass
+
+    def _timeout(*_a):
+        raise TimeoutError("operation exceeded the per-child time limit")
+    signal.signal(signal.SIGALRM, _timeout)
+    signal.alarm(300)
+
+
 def child(task):
     """runs in a fresh forked interpreter."""
     hist, probe = task
+    _guard()
     import warnings
     warnings.simplefilter("ignore")
     from frame.geometry.geometry import Rectangle
@@ -565,6 +961,7 @@ def child(task):
     props = []
     feet = [footprint()]
     out = io.StringIO()
+    made = _track_tempdirs()
     with contextlib.redirect_stdout(out):
         for h in hist:
             try:
@@ -581,6 +978,7 @@ def child(task):
     props.append(prop)
     states.append([Rectangle._distance_epsilon, Rectangle._area_epsilon])
     feet.append(footprint())
+    _remove_tempdirs(made)
     return json.dumps(dig), states, props, feet
 
 
@@ -667,8 +1065,8 @@ def model_request(props) -> str:
     return " ".join(toks)
 
 
-def make_task(rng: random.Random, ctx: Ctx):
-    kind = rng.choice(KINDS)
+def make_task(rng: random.Random, ctx: Ctx, weights: dict | None = None):
+    kind = pick_kind(rng, weights)
     # 70 %: dyadic world (lattice 1/8, scales 2^k): every float operation of the library is exact, so a design has no
     #       rounding-noise gaps and is Robust unless its absolute scale is tiny; 30 %: decimal world (lattice 0.1, 10^k)
     dyadic = rng.random() < 0.7
@@ -679,9 +1077,9 @@ def make_task(rng: random.Random, ctx: Ctx):
     hist = []
     for _ in range(rng.randint(1, ctx.n(6, 25) if ctx.budget <= 1 else 8)):
         hs = s * base ** rng.randint(-kmax, kmax)
-        hk = rng.choice(KINDS)
+        hk = pick_kind(rng, weights)
         hist.append(GEN[hk](rng, hs, rng.random() < 0.25, L))
-    if kind in ("netlist", "alloc", "alloctext", "legal", "die") and rng.random() < 0.5:
+    if kind in ("netlist", "alloc", "alloctext", "legal", "legalbuild", "die", "spectral", "force", "glbfloor") and rng.random() < 0.5:
         # an earlier, DIFFERENT design that shares exact rectangle descriptors with the probe (same regular grid) but has
         # other attributes: value-keyed caches / shared objects leak marks (fixed, roles, moved centres) through these
         twin = json.loads(json.dumps(probe))
@@ -699,6 +1097,24 @@ def make_task(rng: random.Random, ctx: Ctx):
         if "thr" in twin:
             twin["thr"] = rng.choice([0.3, 0.6, 0.9])
         twin.pop("proposal", None) if False else None
+        hist.insert(rng.randint(0, len(hist)), twin)
+    if kind in ("floorset", "rectsolve", "netgen", "satmulti", "strop") and rng.random() < 0.5:
+        # the same operation kind on a closely related input earlier in the process (a memo keyed by part of the input)
+        twin = json.loads(json.dumps(probe))
+        if kind == "floorset":
+            twin["areas"] = [a + 1.0 for a in twin["areas"]]
+            twin["terminals"] = not twin["terminals"]
+        elif kind == "rectsolve":
+            twin["occ"] = [1.0 - o for o in twin["occ"]]
+            if not any(twin["occ"]):
+                twin["occ"][0] = 1.0
+            twin["k"] = 3 - twin["k"]
+        elif kind == "netgen":
+            twin["args"] = [("1" if a == "2" else "2") if a in ("1", "2", "3") else a for a in twin["args"]]
+        elif kind == "satmulti":
+            twin["order"] = list(reversed(twin["order"]))
+        elif kind == "strop":
+            twin["matrix"] = [list(reversed(r)) for r in twin["matrix"]]
         hist.insert(rng.randint(0, len(hist)), twin)
     if kind == "sat" and probe["vars"] and probe["vars"][0].startswith("b_"):
         for _ in range(rng.randint(1, 3)):
@@ -751,15 +1167,32 @@ def corpus():
 
 def run(ctx: Ctx) -> None:
     ctx.rule = ("probe = one operation of kind {netlist load, die decomposition, initial allocation + refine + uniform, SAT "
-                "encoding (truth table over the user variables), strop decomposition, legaliser model construction} on a "
+                "encoding (truth table over the user variables; one manager or 2-3 interleaved), strop decomposition, legaliser model "
+                "construction (+ build_model), netgen, spectral, force, glbfloor (one pass), FloorSet manager, rect.solve} on a "
                 "generated design at absolute scale 10^k, k ∈ {-4..5}; history = 1..6 (thorough: ..25) operations of random "
                 "kinds on unrelated designs at scales within ×1000 of the probe's, 25% of all designs carry an injected "
                 "defect (overlap / out of die); each probe is run alone and after the history in two fresh forked "
                 "interpreters; non-trivial = history contains at least one operation that defines or reads process state "
-                "(tolerances, ROBDD store, legaliser slack); distinct = distinct (history, probe)")
+                "(tolerances, ROBDD store, legaliser slack); distinct = distinct (history, probe).  Streams besides `fork`: "
+                "`regs` (legaliser register sequences vs Registers.lean), `satproc` (interleaved postings of 1-3 SAT managers vs "
+                "SatProc.lean; each manager also re-run alone in a fresh interpreter), `state-inventory` (static scan of the source "
+                "for process-wide state vs the committed list)")
     n = ctx.n(500, 6000)
     rng = ctx.rng
-    tasks = corpus() + [make_task(rng, ctx) for _ in range(n)]
+    # static tie: the process-wide state the SOURCE declares vs the committed inventory the model accounts for
+    new_state = inventory_stream(ctx)
+    suspects = [e["file"] for e in new_state]
+    for extra in getattr(ctx, "seed_inputs", []) or []:
+        if isinstance(extra, dict) and "state_inventory" in extra:
+            suspects.append(extra["state_inventory"]["file"])
+    weights = bias_weights(suspects) if suspects else None
+    if weights:
+        # the check's own extended search: three times the cases, drawn where the new state lives (the orchestrator's
+        # extended search does not start while the open finding's corpus case is reported)
+        if ctx.budget <= 1:
+            n *= 3
+        ctx.notes.append("new process-wide state in " + ", ".join(sorted(set(suspects))) + ": 3x the cases, operation kinds that import it drawn 8x as often")
+    tasks = corpus() + [make_task(rng, ctx, weights) for _ in range(n)]
     for extra in getattr(ctx, "seed_inputs", []) or []:
         if isinstance(extra, dict) and "probe" in extra:
             tasks.append((extra["history"], extra["probe"]))
@@ -774,14 +1207,33 @@ def run(ctx: Ctx) -> None:
             __import__(mod)
         except Exception:
             ctx.notes.append(f"{mod} not importable: its registers are not observed")
+    # third-party libraries the tools import (NOT part of the library under test): loaded once here so that the ~1000 forked
+    # children do not each pay for them; the parent never calls into them
+    for mod in ("numpy", "ruamel.yaml", "pysat.solvers", "PIL.Image", "PIL.ImageDraw", "PIL.ImageFont", "matplotlib.pyplot", "matplotlib.font_manager", "matplotlib.cm", "gekko", "distinctipy"):
+        try:
+            __import__(mod)
+        except Exception:
+            pass
     baseline = footprint()
     reg_tasks = [[["get"]], [["var", "time"], ["set", 3], ["eq", 0], ["eq", 1], ["get"]]] + \
                 [gen_regs(rng) for _ in range(ctx.n(150, 2500))]
     mpctx = mp.get_context("fork")
+    import time as _time
+    t_phase = _time.time()
     with mpctx.Pool(processes=min(16, os.cpu_count() or 4), maxtasksperchild=1) as pool:
         results = pool.map(child, jobs, chunksize=1)
+        ctx.extra.setdefault("phase_seconds", {})["fork-children"] = round(_time.time() - t_phase, 1)
+        t_phase = _time.time()
         reg_results = pool.map(child_regs, reg_tasks, chunksize=1)
+        ctx.extra["phase_seconds"]["register-children"] = round(_time.time() - t_phase, 1)
     regs_stream(ctx, reg_tasks, reg_results)
+    t_phase = _time.time()
+    sat_hs = [gen_satproc(rng) for _ in range(ctx.n(60, 1500))]
+    for extra in getattr(ctx, "seed_inputs", []) or []:
+        if isinstance(extra, dict) and "satproc" in extra:
+            sat_hs.append(extra["satproc"])
+    run_satproc(ctx, sat_hs)
+    ctx.extra["phase_seconds"]["satproc"] = round(_time.time() - t_phase, 1)
     # control runs for the probes whose digest depends on the history: a third fresh interpreter in which only the
     # tolerance the history left in force is preset.  The open finding may explain a difference only if this control
     # reproduces the after-history digest (the tolerance ALONE explains it).
@@ -809,7 +1261,7 @@ def run(ctx: Ctx) -> None:
             if bad:
                 ctx.spec_fail("registers_untouched", inp, {"after_op": k, "import_time_vs_now": bad}, size=len(hist))
                 break
-        nontrivial = any(h["kind"] in ("netlist", "die", "alloc", "alloctext", "allocfirst", "sat", "legal") for h in hist)
+        nontrivial = any(h["kind"] in GEOMETRIC + ("sat", "satmulti", "rectsolve") for h in hist)
         ctx.case("fork", (json.dumps(hist, sort_keys=True), json.dumps(probe, sort_keys=True)), nontrivial,
                  sample={"probe_kind": probe["kind"], "scale": probe["scale"], "history": [(h["kind"], h["scale"]) for h in hist],
                          "fresh_digest": fresh_dig[:160]})
@@ -827,7 +1279,7 @@ def run(ctx: Ctx) -> None:
             explained = any(abs(inforce - v) <= 1e-9 * v for v in legit)   # the sticky mechanism, nothing else
             by_tolerance_alone = i in control and digests_equal(control[i], hist_dig)[0]
             ctx.count("differs:tolerance-alone" if by_tolerance_alone else "differs:NOT-explained-by-tolerance")
-            if explained and by_tolerance_alone and probe["kind"] in ("netlist", "die", "alloc", "alloctext", "allocfirst", "legal"):
+            if explained and by_tolerance_alone and probe["kind"] in GEOMETRIC:
                 lo, hi = min(legit), max(legit)
                 if not robust(probe, lo, hi):
                     finding = "C20-sticky-tolerance-nonrobust-design"
@@ -857,11 +1309,11 @@ def run(ctx: Ctx) -> None:
             elif st != prev:
                 ok = False
                 break
-            elif op["kind"] in ("sat", "strop"):
+            elif op["kind"] in NON_GEOMETRIC:
                 pass
             prev = st
         for op, st0, st1 in zip(ops, [[-1.0, -1.0]] + hist_states, hist_states):
-            if op["kind"] in ("sat", "strop") and st0 != st1:
+            if op["kind"] in NON_GEOMETRIC and st0 != st1:
                 ctx.disagree("eps-untouched-by-sat-strop", inp, st1, st0, size=len(hist))
         if ok:
             reqs.append(model_request(seq))
@@ -881,15 +1333,305 @@ def run(ctx: Ctx) -> None:
             ctx.disagree("eps-state", inp, impl, rep, size=len(inp["history"]))
 
 
+def inventory_stream(ctx: Ctx) -> list:
+    """static inventory of process-wide mutable state (harness/c20_inventory.py) vs the committed expected list; a NEW piece
+    of state is a broken correspondence `state-inventory` (replay = file:line) and steers the extended search."""
+    import c20_inventory as inv
+    import vcheck
+    try:
+        entries, files, bad = inv.inventory(vcheck.REPO)
+        expected = inv.load_expected()
+    except Exception as ex:   # the scanner itself must never take the check down
+        ctx.notes.append(f"state inventory not run: {type(ex).__name__}: {ex}")
+        return []
+    new, gone, renames = inv.compare(entries, expected)
+    ctx.case("state-inventory", ("inventory", len(files)), True,
+             sample={"files_scanned": len(files), "state_entries": len(entries), "expected": len(expected)})
+    ctx.count("inventory:files-scanned", len(files))
+    ctx.count("inventory:state-entries", len(entries))
+    for e in entries:
+        ctx.count("inventory:" + e["cat"])
+    ctx.extra["state_inventory"] = {"files": files, "entries": entries, "unparsable": bad,
+                                    "vanished": [g["file"] + ":" + g["name"] for g in gone],
+                                    "renamed": [[a["name"], b["name"]] for a, b in renames]}
+    if bad:
+        ctx.notes.append("state inventory: could not parse " + ", ".join(bad))
+    if gone:
+        ctx.notes.append("state inventory: expected entries no longer in the source (not an error): " +
+                         ", ".join(g["file"] + ":" + g["name"] for g in gone))
+    for e in new:
+        where = f"{e['file']}:{e['line']}"
+        ctx.disagree("state-inventory", {"state_inventory": e, "replay": where},
+                     f"{where}: {e['cat']} `{e['name']}` ({e['kind']})",
+                     "no such process-wide state in the committed inventory the model accounts for (harness/c20_state_expected.json)", size=0)
+    return new
+
+
+_closure_cache: dict = {}
+
+
+def bias_weights(files: list) -> dict:
+    """operation kinds whose import closure contains one of `files` are drawn 8x as often."""
+    import c20_inventory as inv
+    import vcheck
+    import ast as _ast
+    w = dict(KIND_WEIGHTS)
+    for kind, roots in KIND_MODULES.items():
+        key = tuple(roots)
+        if key not in _closure_cache:
+            seen, todo = set(), list(roots)
+            while todo:
+                rel = todo.pop()
+                if rel in seen or not os.path.isfile(os.path.join(vcheck.REPO, rel)):
+                    continue
+                seen.add(rel)
+                try:
+                    tree = _ast.parse(open(os.path.join(vcheck.REPO, rel), encoding="utf-8").read())
+                except SyntaxError:
+                    continue
+                todo += inv.resolve_imports(vcheck.REPO, rel, tree)
+            _closure_cache[key] = seen
+        if any(f in _closure_cache[key] for f in files):
+            w[kind] = w[kind] * 8
+    return w
+
+
+# ------------------------------------------------------------------ the SAT layer as a process (FV/Model/SatProc.lean)
+def gen_satproc(rng: random.Random) -> dict:
+    """an interleaved history of 1-3 SAT managers sharing pseudobool.memory / mmap (model: FV.Proc.SatProc)."""
+    nm = rng.choice([1, 2, 2, 3, 3])
+    shared = rng.random() < 0.6
+    names = [[(f"def_x{k}" if shared else f"def_m{j}x{k}") for k in range(rng.randint(2, 5))] for j in range(nm)]
+    ops: list = [["nv", j, v] for j in range(nm) for v in names[j]]
+    rng.shuffle(ops)
+
+    def lit(ns):
+        return [rng.choice(ns), rng.choice([1, 1, 0])]
+
+    def terms(ns, lo, hi):
+        return [[rng.choice([c for c in range(lo, hi + 1) if c != 0]), v, rng.choice([1, 1, 1, 0])]
+                for v in rng.sample(ns, rng.randint(1, len(ns)))]
+    earlier: list = []
+    for _ in range(rng.randint(2, 7) * nm):
+        i = rng.randrange(nm)
+        ns = names[i]
+        r = rng.random()
+        if r < 0.12:
+            ops.append(["cl", i, [lit(ns) for _ in range(rng.randint(1, 3))]])
+        elif r < 0.18:
+            ops.append(["im", i, [lit(ns) for _ in range(rng.randint(0, 2))], lit(ns)])
+        elif r < 0.26:
+            ops.append(["qu", i, [[v, rng.choice([1, 1, 0])] for v in rng.sample(ns, rng.randint(0, len(ns)))]])
+        elif r < 0.38:
+            ops.append(["he", i, rng.choice([3, 3, 4, 2, 0]), [[v, rng.choice([1, 1, 0])] for v in rng.sample(ns, rng.randint(0, len(ns)))]])
+        elif r < 0.88:
+            if earlier and rng.random() < 0.4:       # the SAME inequality again, by another manager / other construction
+                e = rng.choice(earlier)
+                if set(t[1] for t in e[4] + e[6]) <= set(ns):
+                    ops.append(["pb", i, rng.choice([0, 1]), e[3], e[4], e[5], e[6], e[7]])
+                    continue
+            o = rng.choice([">=", ">=", ">=", "<=", "<=", ">", "<", "=", "=="])
+            lt = terms(ns, -3, 5)
+            rt = terms(ns, 1, 3) if rng.random() < 0.2 else []
+            ops.append(["pb", i, rng.choice([0, 1]), o, lt, rng.choice([0, 0, 1, -1]), rt, rng.randint(-2, 6)])
+            earlier.append(ops[-1])
+        else:
+            ops.append(["sv", i, None])
+    for j in range(nm):
+        if rng.random() < 0.5:
+            ops.append(["sv", j, None])
+    return {"nm": nm, "ops": ops}
+
+
+def _w_lit(l) -> str:
+    return f"{l[0]} {int(l[1])}"
+
+
+def _w_lits(ls) -> str:
+    return f"{len(ls)}" + "".join(" " + _w_lit(l) for l in ls)
+
+
+def _w_expr(ts, c) -> str:
+    return f"{c} {len(ts)}" + "".join(f" {co} {v} {int(sg)}" for (co, v, sg) in ts)
+
+
+def _w_op(op) -> str:
+    k, m = op[0], op[1]
+    if k == "nv":
+        return f"nv {m} {op[2]}"
+    if k == "cl":
+        return f"cl {m} {_w_lits(op[2])}"
+    if k == "im":
+        return f"im {m} {_w_lits(op[2])} {_w_lit(op[3])}"
+    if k == "qu":
+        return f"qu {m} {_w_lits(op[2])}"
+    if k == "he":
+        return f"he {m} {op[2]} {_w_lits(op[3])}"
+    if k == "pb":
+        return f"pb {m} {int(op[2])} {op[3]} {_w_expr(op[4], op[5])} {_w_expr(op[6], op[7])}"
+    if k == "sv":
+        return f"sv {m} U" if op[2] is None else f"sv {m} M {len(op[2])}" + "".join(f" {v} {b}" for v, b in op[2])
+    raise ValueError(k)
+
+
+def _post_holds(op, sig) -> bool:
+    """direct semantics of a posted constraint under an assignment of the user variables (`Post.holds`)"""
+    def lv(l):
+        return sig[l[0]] if l[1] else 1 - sig[l[0]]
+    k = op[0]
+    if k == "cl":
+        return any(lv(l) for l in op[2])
+    if k == "im":
+        return (not all(lv(l) for l in op[2])) or bool(lv(op[3]))
+    if k in ("qu", "he"):
+        return sum(lv(l) for l in (op[2] if k == "qu" else op[3])) <= 1
+    if k == "pb":
+        lhs = op[5] + sum(c * lv((v, sg)) for (c, v, sg) in op[4])
+        rhs = op[7] + sum(c * lv((v, sg)) for (c, v, sg) in op[6])
+        o = op[3]
+        return lhs >= rhs if o == ">=" else lhs <= rhs if o == "<=" else lhs > rhs if o == ">" else lhs < rhs if o == "<" else lhs == rhs
+    raise ValueError(k)
+
+
+def child_satproc(h):
+    """fresh forked interpreter: the interleaved history on real SATManager objects (one shared store)."""
+    _guard()
+    import warnings
+    warnings.simplefilter("ignore")
+    from tools.rect.satmanager import SATManager
+    import tools.rect.pseudobool as pbm
+    from pysat.solvers import Solver
+    nm = h["nm"]
+    mgrs = [SATManager() for _ in range(nm)]
+    users = [[] for _ in range(nm)]
+    accepted = [[] for _ in range(nm)]
+    bits, wire = [], []
+
+    def L(l):
+        return pbm.Literal(l[0], bool(l[1]))
+
+    def E(ts, c):
+        e = pbm.Expr()
+        for (co, v, sg) in ts:
+            e = e + pbm.Term(pbm.Literal(v, bool(sg)), co)
+        return e + c
+    for op in h["ops"]:
+        k, i = op[0], op[1]
+        m = mgrs[i]
+        wop = list(op)
+        try:
+            if k == "nv":
+                m.newvar(op[2][4:])
+                if op[2] not in users[i]:
+                    users[i].append(op[2])
+            elif k == "cl":
+                m.add_clause([L(l) for l in op[2]])
+            elif k == "im":
+                m.imply([L(l) for l in op[2]], L(op[3]))
+            elif k == "qu":
+                m.quadraticencoding([L(l) for l in op[2]])
+            elif k == "he":
+                m.heuleencoding([L(l) for l in op[3]], op[2])
+            elif k == "pb":
+                m.pseudoboolencoding(pbm.Ineq(E(op[4], op[5]), E(op[6], op[7]), op[3]), bool(op[2]))
+            elif k == "sv":
+                sat = m.solve()
+                wop[2] = [(m.vtable[abs(x)], int(x > 0)) for x in m.solver.get_model() if 0 < abs(x) < len(m.vtable)] if sat else None
+            bits.append("1")
+            if k in ("cl", "im", "qu", "he", "pb"):
+                accepted[i].append(op)
+        except Exception as ex:
+            bits.append("0:" + type(ex).__name__)
+        wire.append(_w_op(wop))
+    dumps, tables = [], []
+    for i, m in enumerate(mgrs):
+        vs = m.vtable[1:]
+        out = [str(m.auxcount), str(len(vs))] + list(vs) + [str(len(m.clauses))]
+        for c in m.clauses:
+            out.append(str(len(c)))
+            for l in c:
+                out += [l.v, str(int(l.s))]
+        dumps.append(" ".join(out))
+        # truth table of the manager's own clause set over ITS user variables, by the real solver
+        sol = Solver()
+        for cl in m.clauses:
+            sol.add_clause([(m.ttable[l.v] if l.s else -m.ttable[l.v]) for l in cl])
+        uv = users[i]
+        tab, direct = [], []
+        for bitsv in range(2 ** len(uv)):
+            sig = {v: (bitsv >> n) & 1 for n, v in enumerate(uv)}
+            tab.append(bool(sol.solve(assumptions=[(m.ttable[v] if sig[v] else -m.ttable[v]) for v in uv])))
+            direct.append(all(_post_holds(op, sig) for op in accepted[i]))
+        sol.delete()
+        tables.append((tab, direct))
+    mem = [str(len(pbm.memory))]
+    for n in pbm.memory:
+        mem += ["L", str(n)] if isinstance(n, int) else ["N", str(n[0]), str(n[1]), str(n[2])]
+    return {"bits": bits, "wire": wire, "dumps": dumps, "tables": tables, "store": " ".join(mem), "accepted": [len(a) for a in accepted]}
+
+
+def project(h: dict, i: int) -> dict:
+    """the operations of manager `i` alone (what it would do as the only manager of a fresh interpreter)"""
+    return {"nm": h["nm"], "ops": [op for op in h["ops"] if op[1] == i]}
+
+
+def satproc_stream(ctx: Ctx, hs: list, results: list, solo: dict) -> None:
+    """correspondence of interleaved multi-manager histories with FV.Proc.SatProc (`drv_global`, op `satproc`) and the
+    clauses of C20.sat_process_exact / sat_verdict_history_indep / encoding_multi_manager_history_indep on the real code."""
+    reqs = ["F satproc %d %d %s" % (h["nm"], len(r["wire"]), " ".join(r["wire"])) for h, r in zip(hs, results)]
+    replies = ctx.model(reqs)
+    for k, (h, r) in enumerate(zip(hs, results)):
+        inp = {"satproc": h}
+        sz = len(h["ops"])
+        kinds = [o[0] for o in h["ops"]]
+        ctx.case("satproc", json.dumps(h, sort_keys=True), h["nm"] > 1 and "pb" in kinds, sample={"managers": h["nm"], "ops": kinds[:12]})
+        ctx.count("satproc:managers:%d" % h["nm"])
+        for b in r["bits"]:
+            if b != "1":
+                ctx.count("satproc:refused:" + b[2:])
+        ops_of = [[n for n, op in enumerate(h["ops"]) if op[1] == i] for i in range(h["nm"])]
+        for i in range(h["nm"]):
+            tab, direct = r["tables"][i]
+            # sat_process_exact: the clause set admits exactly the assignments satisfying the manager's own accepted constraints
+            if tab != direct:
+                ctx.spec_fail("sat_process_exact", inp, {"manager": i, "clause_set_admits": tab, "own_constraints_admit": direct}, size=sz)
+            s = solo.get((k, i))
+            if s is None:
+                continue
+            # verdicts and meaning are those of the manager running ALONE in a fresh interpreter
+            mine = [r["bits"][n] for n in ops_of[i]]
+            if mine != s["bits"]:
+                ctx.spec_fail("sat_verdict_history_indep", inp, {"manager": i, "interleaved": mine, "alone": s["bits"]}, size=sz)
+            if tab != s["tables"][i][0]:
+                ctx.spec_fail("encoding_multi_manager_history_indep", inp, {"manager": i, "interleaved": tab, "alone": s["tables"][i][0]}, size=sz)
+        if replies is not None:
+            impl = "".join(b[0] for b in r["bits"]) + "".join(" | %d %s" % (a, d) for a, d in zip(r["accepted"], r["dumps"])) + " | " + r["store"]
+            if impl != replies[k]:
+                ctx.disagree("satproc", inp, impl[:2000], replies[k][:2000], size=sz)
+    if replies is None:
+        ctx.notes.append("model driver unavailable: SAT-process correspondence not run")
+
+
+def run_satproc(ctx: Ctx, hs: list) -> None:
+    mpctx = mp.get_context("fork")
+    solo_jobs = [(k, i) for k, h in enumerate(hs) for i in range(h["nm"]) if h["nm"] > 1]
+    with mpctx.Pool(processes=min(16, os.cpu_count() or 4), maxtasksperchild=1) as pool:
+        results = pool.map(child_satproc, hs, chunksize=1)
+        solos = pool.map(child_satproc, [project(hs[k], i) for k, i in solo_jobs], chunksize=1)
+    satproc_stream(ctx, hs, results, dict(zip(solo_jobs, solos)))
+
+
 def child_control(task):
     """fresh forked interpreter in which ONLY the tolerances are preset (to what the history left in force), then the
     probe: if this reproduces the after-history digest, the tolerance alone explains the difference."""
     (dist, area), probe = task
+    _guard()
     import warnings
     warnings.simplefilter("ignore")
     from frame.geometry.geometry import Rectangle
     import io
     import contextlib
+    made = _track_tempdirs()
     with contextlib.redirect_stdout(io.StringIO()):
         if dist >= 0:
             Rectangle.set_epsilon(dist, area)
@@ -897,6 +1639,7 @@ def child_control(task):
             dig, _ = run_op(probe)
         except Exception as ex:
             dig = ["exception", type(ex).__name__]
+    _remove_tempdirs(made)
     return json.dumps(dig)
 
 
@@ -939,6 +1682,12 @@ def regs_stream(ctx: Ctx, reg_tasks, reg_results) -> None:
 def replay(ctx: Ctx, body: dict) -> None:
     inp = body["input"]
     mpctx = mp.get_context("fork")
+    if "state_inventory" in inp:
+        inventory_stream(ctx)
+        return
+    if "satproc" in inp:
+        run_satproc(ctx, [inp["satproc"]])
+        return
     if "regs" in inp:
         with mpctx.Pool(processes=1, maxtasksperchild=1) as pool:
             rr = pool.map(child_regs, [inp["regs"]], chunksize=1)
